@@ -264,6 +264,64 @@ func tssRouting(p *packages.Package) (map[string]bool, []string, error) {
 	return routing, registry, nil
 }
 
+// adapterTableNames finds the two classification tables by role, not by name: the package-level maps
+// keyed by string that ClassifyMsg (with its helpers) looks up — the one with an integer value is the
+// round table, the other one the broadcast set.  Falls back to the names of the reference tree.
+type tableNames struct{ rounds, bcast string }
+
+var tableNamesCache = map[string]tableNames{}
+
+func adapterTableNames(m *Module, a adapterInfo) tableNames {
+	if tn, ok := tableNamesCache[a.pkg]; ok {
+		return tn
+	}
+	tn := tableNames{"msgURL2Round", "broadcastMessages"}
+	fn := m.Func(a.pkg, "party", "ClassifyMsg")
+	sp := m.SSAPkg(a.pkg)
+	if fn != nil && sp != nil {
+		var rounds, bcast []string
+		add := func(l *[]string, n string) {
+			for _, x := range *l {
+				if x == n {
+					return
+				}
+			}
+			*l = append(*l, n)
+		}
+		for _, in := range instrsDeep(fn) {
+			lk, ok := in.(*ssa.Lookup)
+			if !ok {
+				continue
+			}
+			u, ok := lk.X.(*ssa.UnOp)
+			if !ok || u.Op != token.MUL {
+				continue
+			}
+			g, ok := u.X.(*ssa.Global)
+			if !ok || g.Pkg != sp {
+				continue
+			}
+			mt, ok := g.Type().(*types.Pointer).Elem().Underlying().(*types.Map)
+			if !ok {
+				continue
+			}
+			if b, ok := mt.Key().Underlying().(*types.Basic); !ok || b.Info()&types.IsString == 0 {
+				continue
+			}
+			if b, ok := mt.Elem().Underlying().(*types.Basic); ok && b.Info()&types.IsInteger != 0 {
+				add(&rounds, g.Name())
+			} else {
+				add(&bcast, g.Name())
+			}
+		}
+		if len(rounds) == 1 && len(bcast) == 1 {
+			tn = tableNames{rounds[0], bcast[0]}
+		}
+	}
+	tableNamesCache[a.pkg] = tn
+	return tn
+}
+
 type adapterTables struct {
 	rounds    map[string]int64 // url -> raw round
 	broadcast map[string]bool
@@ -291,31 +349,35 @@ func loadAdapterTables(c *Ctx, a adapterInfo, rule string) *adapterTables {
 		c.Fatalf("anchor", "%s: cannot evaluate the package initialisation that builds the message tables: %v", a.pkg, err)
 		return nil
 	}
-	rm, ok := ev.mapOf(sp, "msgURL2Round")
+	tn := adapterTableNames(m, a)
+	if tn.rounds != "msgURL2Round" || tn.bcast != "broadcastMessages" {
+		c.Note("anchor: %s: classification tables found by role in ClassifyMsg: rounds=%s broadcast=%s", a.pkg, tn.rounds, tn.bcast)
+	}
+	rm, ok := ev.mapOf(sp, tn.rounds)
 	if !ok {
-		c.Fatalf("anchor", "%s: msgURL2Round is not a package-level map built at initialisation", a.pkg)
+		c.Fatalf("anchor", "%s: %s is not a package-level map built at initialisation", a.pkg, tn.rounds)
 		return nil
 	}
 	t.roundsPos = rm.pos
-	if g, ok := sp.Members["msgURL2Round"].(*ssa.Global); ok && g.Pos().IsValid() {
+	if g, ok := sp.Members[tn.rounds].(*ssa.Global); ok && g.Pos().IsValid() {
 		t.roundsPos = g.Pos()
 	}
 	for _, k := range rm.keys {
 		kv, isK := rm.m[k].(constant.Value)
 		if !isK || kv.Kind() != constant.Int {
-			c.Fatalf("anchor", "%s: msgURL2Round[%q] is not a constant of the initialisation code", a.pkg, k)
+			c.Fatalf("anchor", "%s: %s[%q] is not a constant of the initialisation code", a.pkg, tn.rounds, k)
 			return nil
 		}
 		v, _ := constant.Int64Val(kv)
 		t.rounds[k] = v
 	}
-	bm, ok := ev.mapOf(sp, "broadcastMessages")
+	bm, ok := ev.mapOf(sp, tn.bcast)
 	if !ok {
-		c.Fatalf("anchor", "%s: broadcastMessages is not a package-level map built at initialisation", a.pkg)
+		c.Fatalf("anchor", "%s: %s is not a package-level map built at initialisation", a.pkg, tn.bcast)
 		return nil
 	}
 	t.bcastPos = bm.pos
-	if g, ok := sp.Members["broadcastMessages"].(*ssa.Global); ok && g.Pos().IsValid() {
+	if g, ok := sp.Members[tn.bcast].(*ssa.Global); ok && g.Pos().IsValid() {
 		t.bcastPos = g.Pos()
 	}
 	for _, k := range bm.keys {
@@ -369,10 +431,11 @@ func adapterNormalisation(c *Ctx, m *Module, a adapterInfo) (func(int64) int64, 
 		return nil, "", false
 	}
 	var lk *ssa.Lookup
-	for _, in := range instrsOf(fn) {
+	tn := adapterTableNames(m, a)
+	for _, in := range instrsDeep(fn) {
 		if l, ok := in.(*ssa.Lookup); ok {
 			if g, ok := l.X.(*ssa.UnOp); ok {
-				if gl, ok := g.X.(*ssa.Global); ok && gl.Name() == "msgURL2Round" {
+				if gl, ok := g.X.(*ssa.Global); ok && gl.Name() == tn.rounds {
 					lk = l
 				}
 			}
@@ -524,24 +587,25 @@ func checkC19(c *Ctx) {
 		ruleAdapterDigestBinding(c, G2, a)
 		ruleAdapterSeatBinding(c, G3, a)
 		// W1: no writes to the tables
+		tn := adapterTableNames(m, a)
 		for _, fn := range m.PkgFuncs(a.pkg) {
 			c.Analysed(FuncName(fn))
 			for _, in := range instrsOf(fn) {
 				bad := ""
 				switch x := in.(type) {
 				case *ssa.MapUpdate:
-					if g := globalOf(x.Map); g == "msgURL2Round" || g == "broadcastMessages" {
+					if g := globalOf(x.Map); g == tn.rounds || g == tn.bcast {
 						if !isInitFunc(fn) {
 							bad = g
 						}
 					}
 				case *ssa.Store:
-					if g, ok := x.Addr.(*ssa.Global); ok && (g.Name() == "msgURL2Round" || g.Name() == "broadcastMessages") && !isInitFunc(fn) {
+					if g, ok := x.Addr.(*ssa.Global); ok && (g.Name() == tn.rounds || g.Name() == tn.bcast) && !isInitFunc(fn) {
 						bad = g.Name()
 					}
 				case *ssa.Call:
 					if b, ok := x.Call.Value.(*ssa.Builtin); ok && b.Name() == "delete" {
-						if g := globalOf(x.Call.Args[0]); g == "msgURL2Round" || g == "broadcastMessages" {
+						if g := globalOf(x.Call.Args[0]); g == tn.rounds || g == tn.bcast {
 							bad = g
 						}
 					}
@@ -571,8 +635,9 @@ func ruleAdapterClassifyProvenance(c *Ctx, rule string, a adapterInfo) {
 	if fn == nil {
 		return
 	}
+	tn := adapterTableNames(m, a)
 	var anyAlloc ssa.Value
-	for _, in := range instrsOf(fn) {
+	for _, in := range instrsDeep(fn) {
 		if cl, ok := in.(*ssa.Call); ok {
 			if o := calleeObj(&cl.Call); o != nil && o.Name() == "Unmarshal" && len(cl.Call.Args) == 2 && strip(cl.Call.Args[0]) == strip(fn.Params[1]) {
 				anyAlloc = strip(cl.Call.Args[1])
@@ -581,7 +646,7 @@ func ruleAdapterClassifyProvenance(c *Ctx, rule string, a adapterInfo) {
 	}
 	okU := anyAlloc != nil
 	isTypeURL := func(v ssa.Value) bool {
-		b, f, ok := fieldLoad(strip(v))
+		b, f, ok := fieldLoad(resultOf(v))
 		return ok && f.Name() == "TypeUrl" && strip(b) == anyAlloc
 	}
 	okB, okR, okE := false, false, false
@@ -594,8 +659,8 @@ func ruleAdapterClassifyProvenance(c *Ctx, rule string, a adapterInfo) {
 			continue
 		}
 		// class
-		if tup, isOK := commaOK(strip(r.Results[1])); isOK {
-			if lk, isL := tup.(*ssa.Lookup); isL && globalOf(lk.X) == "broadcastMessages" && isTypeURL(lk.Index) {
+		if tup, isOK := commaOK(resultOf(r.Results[1])); isOK {
+			if lk, isL := tup.(*ssa.Lookup); isL && globalOf(lk.X) == tn.bcast && isTypeURL(lk.Index) {
 				okB = true
 			}
 		}
@@ -603,7 +668,7 @@ func ruleAdapterClassifyProvenance(c *Ctx, rule string, a adapterInfo) {
 		sl := NewSlicer(m, a.pkg).Slice(r.Results[0])
 		okR = sliceHas(sl, func(v ssa.Value) bool {
 			lk, ok := v.(*ssa.Lookup)
-			return ok && globalOf(lk.X) == "msgURL2Round" && isTypeURL(lk.Index)
+			return ok && globalOf(lk.X) == tn.rounds && isTypeURL(lk.Index)
 		})
 		// unmarshal error checked
 		okE = hasFact(FactsAt(r), func(f Fact) bool {
@@ -629,13 +694,13 @@ func ruleAdapterSenderBinding(c *Ctx, rule string, a adapterInfo) {
 	from := fn.Params[2]
 	sl := NewSlicer(m, a.pkg)
 	n := 0
-	for _, in := range instrsOf(fn) {
+	for _, in := range instrsDeep(fn) {
 		snd, ok := in.(*ssa.Send)
 		if !ok {
 			continue
 		}
 		n++
-		sent := strip(snd.X)
+		sent := resultOf(snd.X)
 		ok2 := hasFact(FactsAt(snd), func(f Fact) bool {
 			if f.Op != token.EQL {
 				return false
@@ -674,9 +739,8 @@ func ruleAdapterDigestBinding(c *Ctx, rule string, a adapterInfo) {
 	msgHash := fn.Params[2]
 	sl := NewSlicer(m, a.pkg)
 	n := 0
-	for _, in := range instrsOf(fn) {
-		r, ok := in.(*ssa.Return)
-		if !ok || len(r.Results) != 2 {
+	for _, r := range returnsDeep(fn) {
+		if len(r.Results) != 2 {
 			continue
 		}
 		res := retResults(r)
@@ -742,7 +806,7 @@ func ruleAdapterSeatBinding(c *Ctx, rule string, a adapterInfo) {
 	}
 	var inPlace []seatSite
 	nParse := 0
-	for _, in := range instrsOf(fn) {
+	for _, in := range instrsDeep(fn) {
 		cl, ok := in.(*ssa.Call)
 		if !ok {
 			continue
@@ -752,19 +816,49 @@ func ruleAdapterSeatBinding(c *Ctx, rule string, a adapterInfo) {
 			continue
 		}
 		nParse++
-		id := strip(cl.Call.Args[1])
-		// identity built from the transport sender
+		id := resultOf(cl.Call.Args[1])
+		// identity built from the transport sender: tss.NewPartyID(.., key) directly, or through a
+		// constructor of the package that forwards (a function of) its parameter as the key
 		okKey := false
 		if mk, isCall := id.(*ssa.Call); isCall {
 			if mo := calleeObj(&mk.Call); mo != nil && mo.Name() == "NewPartyID" && len(mk.Call.Args) == 3 {
 				okKey = sl.Slice(mk.Call.Args[2])[from]
+			} else if g := staticCallee(&mk.Call); g != nil && g.Blocks != nil && pkgPathOf(g) == a.pkg && len(g.Params) == len(mk.Call.Args) {
+				var rets []*ssa.Return
+				for _, gi := range instrsOf(g) {
+					if r, isR := gi.(*ssa.Return); isR {
+						rets = append(rets, r)
+					}
+				}
+				if len(rets) == 1 && len(rets[0].Results) == 1 {
+					noParamLook++
+					inner, isC := strip(rets[0].Results[0]).(*ssa.Call)
+					noParamLook--
+					if isC {
+						if mo := calleeObj(&inner.Call); mo != nil && mo.Name() == "NewPartyID" && len(inner.Call.Args) == 3 {
+							ks := NewSlicer(m, a.pkg).Slice(inner.Call.Args[2])
+							fed := 0
+							okKey = true
+							for i, gp := range g.Params {
+								if !ks[gp] {
+									continue
+								}
+								fed++
+								if !sl.Slice(mk.Call.Args[i])[from] {
+									okKey = false
+								}
+							}
+							okKey = okKey && fed > 0
+						}
+					}
+				}
 			}
 		}
 		c.Check(okKey, rule, FuncName(fn), "identity given to ParseWireMessage", m.Pos(cl.Pos()), "tss.NewPartyID(.., key ← from)",
 			"the identity under which the received bytes are parsed is not built from the transport-authenticated sender")
 		// its Index is the result of the lookup on the same identity, stored before parsing
 		okIdx := false
-		for _, in2 := range instrsOf(fn) {
+		for _, in2 := range instrsDeep(fn) {
 			st, isSt := in2.(*ssa.Store)
 			if !isSt {
 				continue
